@@ -5,6 +5,7 @@ CONSTANTS
   MaxT = 5
   MaxE = 4
   Original = FALSE
+  TwoWrites = FALSE
   Depth = 12
 INVARIANT Emit
 CHECK_DEADLOCK FALSE
